@@ -341,7 +341,8 @@ func verifC02LoadBlob(nloc int, simple bool) (err error, out []byte, good []byte
 	for i := 0; i < nloc; i++ {
 		l := verifC02Loc{pack: restic.ID{0xd0, byte(i + 1)}}
 		// restic never stores an empty blob compressed (UncompressedLength 0 means "not compressed")
-		l.compressed = !simple && len(good) > 0 && verifrt.Bool("compressed")
+		// (in the two-location harness the second copy may be compressed: copies of different stored length)
+		l.compressed = (!simple || i == 1) && len(good) > 0 && verifrt.Bool("compressed")
 		plen := len(verifC02Packed(l.compressed, good))
 		l.blob = pack.Blob{BlobHandle: bh, Offset: uint(5 + 3*i), Length: uint(32 + plen)}
 		if l.compressed {
